@@ -152,6 +152,12 @@ func (m *xdsResourceManager) Get(ctx context.Context, rType xdsresource.Resource
 
 	// Fetch resource via client and wait for the update
 	m.mu.Lock()
+	// the resource may have been delivered between the unlocked read above and this point;
+	// in that case nobody would ever notify a notifier registered now.
+	if r, ok := m.cache[rType][rName]; ok {
+		m.mu.Unlock()
+		return r, nil
+	}
 	// Setup channel for this resource
 	if _, ok := m.notifierMap[rType]; !ok {
 		m.notifierMap[rType] = make(map[string]*notifier)
